@@ -43,7 +43,7 @@ func init() {
 		ID:           "C08",
 		Run:          Run,
 		MaxSteps:     200000,
-		YieldFiles:   []string{"cred/manager.go", "ss2022/credstore.go"},
+		YieldFiles:   []string{"cred/manager.go", "ss2022/credstore.go", "service/reload_unix.go"},
 		QuickRuns:    6000,
 		ThoroughSecs: 600,
 		Rule: "one run = one flavour (quiet | duplicate-key | save-race | concurrent-disjoint | concurrent-same-user | concurrent-reload | anything | empty-store-file), key size, " +
@@ -62,7 +62,7 @@ func init() {
 		},
 		ExpectProbes: []string{
 			"c08.op.add.ok", "c08.op.add.refused", "c08.op.update.ok", "c08.op.update.refused", "c08.op.delete.ok", "c08.op.delete.refused",
-			"c08.op.get.ok", "c08.op.get.404", "c08.op.list", "c08.op.reload-api.ok", "c08.op.reload-api.failed", "c08.op.reload-fn.ok", "c08.op.reload-fn.failed",
+			"c08.signal-path", "c08.op.get.ok", "c08.op.get.404", "c08.op.list", "c08.op.reload-api.ok", "c08.op.reload-api.failed", "c08.op.reload-fn.ok", "c08.op.reload-fn.failed",
 			"c08.op.bad-length", "c08.op.bad-body", "c08.dup-key.accepted", "c08.same-key-update",
 			"c08.edit.valid", "c08.edit.malformed", "c08.edit.wrong-length", "c08.edit.duplicate-keys", "c08.edit.empty-object", "c08.edit.zero-bytes",
 			"c08.overlap.any", "c08.overlap.mutators", "c08.overlap.reload-mutator", "c08.overlap.save-op", "c08.save.ran", "c08.save.multiple",
@@ -438,6 +438,10 @@ func envFlavour() int {
 
 // Run is one simulated run.
 func Run(s *simrt.Sim) {
+	if envFlavour() < 0 && s.GenChance(16) {
+		runSignal(s)
+		return
+	}
 	c := &run{s: s, kinds: map[string]bool{}, docKinds: map[string]bool{}, keyOwnerSeen: map[int]string{}}
 	c.fl = s.Choose(nFlavours)
 	c.flN = flName[c.fl]
